@@ -110,6 +110,39 @@ def register(S):
         ip.call_fn(st, fn, [], on_return=lambda ip2, st2, rv: insert(ip2, st2, rv))
         return None
 
+    @S.on("alloc::collections::btree::map::entry::VacantEntry::<'a, K, V, A>::insert", "alloc::collections::btree::map::entry::VacantEntry::<'a, K, V, A>::insert_entry")
+    def vacant_insert(ctx):
+        inner = ctx.args[0]
+        if not (isinstance(inner, Opaque) and inner.kind == "vacant"):
+            return NotImplemented
+        mref, key = inner.get("map"), inner.get("key")
+        st = ctx.st
+        cell = st.new_heap(ctx.args[1])
+        m2 = ctx.ip.read_loc(st, mref.loc)
+        ctx.ip.write_loc(st, mref.loc, m2.set(cells=m2.get("cells") + ((fp(key), RefVal(cell, True)),)))
+        st.events.append({"kind": "map_insert", "key": key})
+        if ctx.path.endswith("insert_entry"):
+            return ctx.ret(Opaque.make("occupied", map=mref, cell=cell, key=key))
+        return ctx.ret(RefVal(cell, True))
+
+    @S.pat(r"^alloc::collections::btree::map::entry::OccupiedEntry::<'a, K, V, A>::(into_mut|get_mut|get)$")
+    def occupied_ref(ctx):
+        inner = ctx.args[0]
+        if isinstance(inner, RefVal):
+            inner = ctx.deref(inner)
+        if not (isinstance(inner, Opaque) and inner.kind == "occupied"):
+            return NotImplemented
+        return ctx.ret(RefVal(inner.get("cell"), not ctx.path.endswith("::get")))
+
+    @S.pat(r"^alloc::collections::btree::map::entry::(Occupied|Vacant)Entry::<'a, K, V, A>::key$")
+    def entry_key(ctx):
+        inner = ctx.args[0]
+        if isinstance(inner, RefVal):
+            inner = ctx.deref(inner)
+        if isinstance(inner, Opaque) and inner.kind in ("occupied", "vacant"):
+            return ctx.ret(RefVal(ctx.st.new_heap(inner.get("key")), False))
+        return NotImplemented
+
     @S.on("alloc::collections::btree::map::BTreeMap::<K, V, A>::get")
     def map_get(ctx):
         mref, kref = ctx.args
